@@ -109,3 +109,6 @@ package manifest
 //@   ensures seq != "\\\\" && parseok(seq[1:], 8) && parseint(seq[1:], 8) < 256 ==> len(result) == 1
 //@ func UnescapeName property C10
 //@   calls Regexp.ReplaceAllStringFunc#1: requires $0 == s
+
+//@ lemma escapeSeqPattern property C10: regexliteral(escapeSeq) == `\\([0-9]{3}|\\)`
+//@ lemma locatorPattern property C10: regexliteral(blockdigest.LocatorPattern) == `^[0-9a-fA-F]{32}\+[0-9]+(\+[A-Z][A-Za-z0-9@_-]*)*$`
